@@ -275,5 +275,10 @@ def batchSplit (x : Shape) (n : Nat) : R Shape :=
     let span := total / n
     if mul32 span n ≠ total then throwError else x.updateBatch span
 
+/-- `FWD_SHAPE(SoftmaxCrossEntropy)`: `elementwise(x, t)` then `update_dim(dim, 1)`. -/
+def softmaxCrossEntropy (x t : Shape) (dim : Nat) : R Shape := do
+  let y ← elementwise x t
+  y.updateDim dim 1
+
 end ShapeOps
 end Primitiv
